@@ -47,6 +47,27 @@ func (j *c09job) args(jobDir, pkgBase string) ([]string, string) {
 		return append(a, "-o", filepath.Join(jobDir, "sub"), "g.bnf"), "sub"
 	case "p":
 		return append(a, "-p", pkgBase, "g.bnf"), "."
+	// spellings of the same directories that are not in canonical form
+	case "sub/":
+		return append(a, "-o", "sub/", "g.bnf"), "sub"
+	case "./sub":
+		return append(a, "-o", "./sub", "g.bnf"), "sub"
+	case "sub/./deeper":
+		return append(a, "-o", "sub/./deeper", "g.bnf"), "sub/deeper"
+	case "sub//deeper/":
+		return append(a, "-o", "sub//deeper/", "g.bnf"), "sub/deeper"
+	case "abs/":
+		return append(a, "-o", filepath.Join(jobDir, "sub")+"/", "g.bnf"), "sub"
+	case "abs/./":
+		return append(a, "-o", jobDir+"/./sub", "g.bnf"), "sub"
+	case "abs//":
+		return append(a, "-o", jobDir+"//sub//", "g.bnf"), "sub"
+	case "p/":
+		return append(a, "-p", pkgBase+"/", "g.bnf"), "."
+	case "o+p":
+		return append(a, "-o", "sub", "-p", pkgBase+"/sub", "g.bnf"), "sub"
+	case "o/+p/":
+		return append(a, "-o", "sub/", "-p", pkgBase+"/sub/", "g.bnf"), "sub"
 	}
 	return append(a, "-o", "sub", "g.bnf"), "sub"
 }
@@ -153,6 +174,18 @@ func c09Jobs(tier string) []c09job {
 				if si >= 3 && (fi+oi)%4 != 0 {
 					continue
 				}
+				jobs = append(jobs, c09job{Name: "seed-" + s.Name, Text: s.Text, Flags: f, OutForm: form, HasSyntax: hs, Compile: true})
+			}
+		}
+	}
+	// (2b) spellings of the output directory / package that are not in canonical form (trailing slash, ./, //)
+	for si, s := range gram.Seeds() {
+		if si >= 3 && tier != "thorough" {
+			break
+		}
+		hs := hasSyntaxPart(s.Text)
+		for _, form := range []string{"sub/", "./sub", "sub/./deeper", "sub//deeper/", "abs/", "abs/./", "abs//", "p/", "o+p", "o/+p/"} {
+			for _, f := range [][]string{{"-a"}, {"-a", "-zip", "-debug_parser"}, {"-a", "-no_lexer"}} {
 				jobs = append(jobs, c09job{Name: "seed-" + s.Name, Text: s.Text, Flags: f, OutForm: form, HasSyntax: hs, Compile: true})
 			}
 		}
